@@ -28,12 +28,15 @@ RULE = ("seg: byte strings (even/odd length, empty, partial trailing code, inval
         "(bfchar, bfrange increment with and without carry, bfrange array, 1/2/3-byte sources, multi-character and "
         "surrogate-pair targets, redefinitions) plus a malformed stream; widths: W/W2 arrays interleaving both "
         "syntaxes, cid 0, floats, missing terminals, wrong types, DW/DW2 present or absent; doc: PDFs with generated "
-        "Type0 fonts -> LTChar text/adv/matrix; ttf: generated cmap tables formats 0/2/4. A case is non-trivial when "
+        "Type0 fonts (incl. predefined -V CMaps showing rotated punctuation) -> LTChar text/adv/matrix; umapsel: which "
+        "CID->Unicode map a font picks (ToUnicode kind x collection x TrueType x writing mode); ttf: generated cmap "
+        "tables formats 0/2/4 and damaged copies. A case is non-trivial when "
         "it is a distinct input that yields >= 1 code / mapping / width entry")
 TRUSTED_BASE = [
-    "hand model lean/PdfVerif/Model/CIDFont.lean of cmapdb/pdffont/pdfdevice functions (correspondence is sampling)",
-    "tools/translate/gen_c07.py regenerates IDENTITY_ENCODER, the four identity CMap names of CMapDB.get_cmap and the "
-    "DW/DW2 defaults from the Python source",
+    "hand models lean/PdfVerif/Model/CIDFont.lean and Model/TrueTypeCmap.lean of cmapdb/pdffont/pdfdevice functions "
+    "(correspondence is sampling)",
+    "tools/translate/gen_c07.py regenerates IDENTITY_ENCODER, the four identity CMap names of CMapDB.get_cmap, the "
+    "DW/DW2 defaults, the TrueType collections tuple and the writing-mode argument of get_unicode_map from the source",
     "Python twin of the Lean spec in tools/harness/props/c07.py (compared with the Lean spec on every case)",
     "PSStackParser tokenisation of ToUnicode streams is not modelled: the model starts from the token list "
     "(hex strings, integers, names, arrays, keywords); streams are serialised from tokens in one fixed spelling",
@@ -69,9 +72,18 @@ STATEMENT_STATUS: Dict[str, str] = {
     "horizontal_advance": "proved (Tc = 0, Tz = 100)",
     "glyph_placement": "proved",
     "vertical_default": "proved over the regenerated DW2 default",
-    "future work": "bfrange_inc as ISO's last-byte increment (incLast) = carry form when the last byte does not overflow; "
-                   "utf16 round trip utf16Ignore (utf16Encode cps) = cps; get_widths2 = spec for W2; TrueType cmap "
-                   "formats 0/2/4 are checked on the implementation only (no Lean model)",
+    "collection_map_follows_wmode": "proved over the regenerated call CMapDB.get_unicode_map(self.cidcoding, "
+                                    "self.cmap.is_vertical()): a vertical CMap reads the collection's vertical table",
+    "unicode_map_priority": "proved: ToUnicode stream first; Adobe-Identity / Adobe-UCS use the TrueType cmap",
+    "bfrange_inc": "proved: ISO's last-byte increment (incLast), wherever defined, equals the carry form (incBE)",
+    "bfrange_inc_pairs": "proved: a range whose last byte never overflows maps lo+i to dst with the last byte + i",
+    "widths2_map_spec": "proved: get_widths2(render W2) = specified dictionary, any interleaving of both syntaxes",
+    "widths2_spec": "proved: w1y of a cid = latest W2 entry, else DW2[1], else -1000 (regenerated default)",
+    "trie_build_codes": "proved: a trie built by add_code2cid from a prefix-free table has the table's codes",
+    "trie_build_decode": "proved: CMap.decode on the built trie = CIDs of the table's codes",
+    "future work": "utf16 round trip utf16Ignore (utf16Encode cps) = cps; theorems over the Lean model of "
+                   "TrueTypeFont.create_unicode_map (formats 0/2/4 are modelled and tie-checked incl. damaged files, "
+                   "and checked against independently built tables on the implementation, but no theorem)",
 }
 
 logging.getLogger("pdfminer").setLevel(logging.CRITICAL)
